@@ -1,6 +1,9 @@
 package server
 
 import (
+	"net"
+	"time"
+
 	bnet "github.com/bio-routing/bio-rd/net"
 	"github.com/bio-routing/bio-rd/protocols/bgp/packet"
 	"github.com/bio-routing/bio-rd/protocols/bgp/types"
@@ -159,6 +162,56 @@ func VC25_ClientManager() {
 	_ = cm.Clients()
 	cm.Unregister(&c25Client{})
 	vReach("usable")
+}
+
+type c25Conn struct {
+	net.Conn
+	gate   chan struct{} // every Write waits for a token: the peer reads slowly
+	writes int
+}
+
+func (c *c25Conn) Write(b []byte) (int, error) {
+	<-c.gate
+	c.writes++
+	return len(b), nil
+}
+func (c *c25Conn) Close() error { return nil }
+
+// session disposal while the update sender is flushing: afterwards the sender's queue lock must be free (a route
+// change that still reaches the sender must return)
+func VC25_Sender() {
+	peerIP := bnet.IPv4FromOctets(169, 254, 100, 100).Ptr()
+	p := &peer{addr: peerIP, localAddr: bnet.IPv4FromOctets(169, 254, 100, 1).Ptr(), localASN: 65000, peerASN: 65000, routerID: 1}
+	fsm := newFSM(p)
+	rib := locRIB.New("inet.0")
+	fsm.ipv4Unicast = newFSMAddressFamily(packet.AFIIPv4, packet.SAFIUnicast, &peerAddressFamily{rib: rib, importFilterChain: filter.NewAcceptAllFilterChain(), exportFilterChain: filter.NewAcceptAllFilterChain(),
+		addPathSend: routingtable.ClientOptions{BestOnly: true}}, fsm)
+	fsm.ipv4Unicast.addPathTX = routingtable.ClientOptions{BestOnly: true}
+	cc := &c25Conn{gate: make(chan struct{}, 8)}
+	fsm.con = cc
+	us := newUpdateSender(fsm.ipv4Unicast)
+	us.Start(5 * time.Millisecond)
+	vSettle()
+	n := vParam("n")
+	for i := 0; i < n; i++ {
+		us.AddPath(c25Pfx(i), c25Path(uint32(100+i))) // n different attribute sets queued
+	}
+	vAdvance(int64(5 * time.Millisecond)) // the sender starts flushing and waits in its first Write
+	vSettle()
+	destroyed := false
+	go func() { us.Destroy(); destroyed = true }()
+	go func() {
+		for i := 0; i < n; i++ {
+			cc.gate <- struct{}{} // the peer reads
+		}
+	}()
+	vSettle()
+	vReach("destroyed")
+	vAssert(destroyed, "C25.sender.destroy.returns")
+	added := false
+	go func() { us.AddPath(c25Pfx(9), c25Path(9)); added = true }()
+	vSettle()
+	vAssert(added, "C25.sender.addpath.after.destroy.returns")
 }
 
 func VC25_Twin() {
